@@ -205,6 +205,32 @@ func main() {
 		}
 		return
 	}
+	if r.Phase == "qclose" {
+		if r.Replay != "" {
+			var c qcloseCase
+			if err := r.ReplayCase(&c); err != nil {
+				fmt.Println("replay:", err)
+				return
+			}
+			for i := 0; i < 5 && r.Violations() == 0; i++ {
+				runQCloseCase(r, c)
+			}
+			return
+		}
+		n := r.N(144, 2880)
+		for i := 0; i < n; i++ {
+			if !r.Mine(i) {
+				continue
+			}
+			c := genQClose(r, i)
+			r.Begin(c)
+			runQCloseCase(r, c)
+			if i < 2 {
+				r.Sample(c)
+			}
+		}
+		return
+	}
 	if r.Replay != "" {
 		var c caseT
 		if err := r.ReplayCase(&c); err != nil {
